@@ -36,10 +36,18 @@ def experiment_level(ctx, nexp, nconf):
                       triples=[[0, 0, 0], [0, 1, 0], [1, 1, 0], [1, 0, 0]]))
     # the record of evaluator 0 reaches the result after the record of evaluator 1 (its params are slow to compute): the tables are the same all the same
     specs.append(dict(envs=[["lin", 6, 3]], lrns=[["count", 1]], vals=[["slowparams", 0.6], ["seq2", 3]], groups=[], triples=[[0, 0, 0], [0, 0, 1]]))
+    # environments whose params are complete only after a read (supervised data), behind a chunk(): the environments table does not depend on how the tasks are chunked
+    specs.append(dict(envs=[["group", 0, 0], ["group", 0, 1]], lrns=[["count", 1], ["kwargs"]], vals=[["seq"]], groups=[dict(n=9, seed=2, prefix="chunk", fan=2, source="supervised")],
+                      triples=[[0, 0, 0], [0, 1, 0], [1, 0, 0], [1, 1, 0]]))
+    # one RejectionCB object (seeds whose first draw falls between the thresholds) for logged environments with different logging propensities: in-process and on workers alike
+    specs.append(dict(envs=[["group", 0, 0]] + [["group", 1, k] for k in range(4)], lrns=[["skew"]], vals=[["rej", 7], ["rej", 2]],
+                      groups=[dict(n=40, seed=3, prefix=None, fan=1, logged=True, logger="eps", na=2), dict(n=40, seed=4, prefix=None, fan=4, logged=True, na=3)],
+                      triples=[[k, 0, v] for v in range(2) for k in range(5)]))
+    n_fixed = len(specs)
     for _ in range(nexp): specs.append(expcore.gen_spec(rng))
     for si, spec in enumerate(specs):
         seed = rng.choice([1, 1, 7])
-        confs = [CONFIGS[0], CONFIGS[0]] + (CONFIGS[1:] if si in (0, 2) else [(1, 1, 0), (2, 1, 1)] if si == 1 else [(2, 0, 0), (2, 0, 1), (3, 2, 2)] if si == 3 else rng.sample(CONFIGS[1:], min(nconf, len(CONFIGS) - 1)))
+        confs = [CONFIGS[0], CONFIGS[0]] + (CONFIGS[1:] if si in (0, 2) else [(1, 1, 0), (2, 1, 1)] if si == 1 else [(2, 0, 0), (2, 0, 1), (3, 2, 2)] if si == 3 else [(1, 0, 1), (2, 0, 0), (2, 1, 1)] if si == 4 else [(2, 1, 1), (2, 0, 0)] if si == 5 else rng.sample(CONFIGS[1:], min(nconf, len(CONFIGS) - 1)))
         for ci, (p, mc, mt) in enumerate(confs):
             jobs.append(dict(spec=spec, p=p, mc=mc, mt=mt, seed=seed)); index.append((si, ci, (p, mc, mt)))
     done, hung, err = expcore.run_jobs(jobs, "c01")
